@@ -106,10 +106,11 @@ class SigmaField(FieldType):
         """Read a SigmaField from a HDF5 data source"""
         name = h5_group.attrs["fieldname"]
         if name in memo:
+            # A SigmaArray that has already been read (it carries its sigma)
             val = memo[name]
-        else:
-            val = h5_group[name][...]
-            sigma = h5_group["sigma"][...]
+            return cls(num_obs=len(val), name=name.split(".")[-1], val=val)
+        val = h5_group[name][...]
+        sigma = h5_group["sigma"][...]
         return cls(num_obs=len(val), name=name.split(".")[-1], val=val, sigma=sigma)
 
     def _write(self, h5_group, _) -> None:
